@@ -204,21 +204,38 @@ def check(repo: Repo, run: Run) -> None:
     g = grammar(repo)
     check_tokenizer(repo, run)
     # L2 radix dispatch ----------------------------------------------------
+    def find_expand(fname: str):
+        """The function that decodes one escape match: nested in celstr/celbytes or a module-level helper they use."""
+        top = ev.func(fname)
+        cands = [n for n in ast.walk(top) if isinstance(n, ast.FunctionDef) and n is not top]
+        for c in ast.walk(top):
+            nm = dotted(c.func) if isinstance(c, ast.Call) else (c.id if isinstance(c, ast.Name) else None)
+            if nm and ev.has(nm) and isinstance(ev.top(nm), ast.FunctionDef) and ev.top(nm) not in cands:
+                cands.append(ev.top(nm))
+        cands = [c for c in cands if any(isinstance(x, ast.Call) and dotted(x.func) == "int" and len(x.args) == 2 for x in ast.walk(c))]
+        return cands[0] if len(cands) == 1 else None
+
     for fname, want in (("celstr", {"\\x": (2, 16), "\\u": (2, 16), "\\U": (2, 16), "\\ooo": (1, 8)}),
                         ("celbytes", {"\\x": (2, 16), "\\u": (2, 16), "\\ooo": (1, 8)})):
-        fn = ev.func(f"{fname}.expand")
+        fn = find_expand(fname)
+        if fn is None:
+            run.inconclusive("C07.L2", f"{fname}.expand", "the function that decodes one escape match (int(text[k:], radix) per escape form) was not found")
+            continue
         got = radix_dispatch(fn)
         for p, w in want.items():
+            if p not in got:
+                run.inconclusive("C07.L2", f"{fname}.expand|{p}", f"no arm decoding {p} with int(match[k:], radix) was recognised")
+                continue
             run.ob("C07.L2", f"{fname}.expand|{p}", got.get(p) == w,
                    f"{fname}: escape {p} is decoded with int(match[{got.get(p, ('?', '?'))[0]}:], {got.get(p, ('?', '?'))[1]}); needs offset {w[0]}, radix {w[1]}", ev.loc(fn))
         # single characters pass through unchanged / utf-8
         one = [n for n in ast.walk(fn) if isinstance(n, ast.If) and "len(match) == 1" in ast.unparse(n.test)]
         if fname == "celstr":
             ok = bool(one) and any(isinstance(s, ast.Assign) and ast.unparse(s.value) == "match" for s in one[0].body)
-            run.ob("C07.L2", "celstr.expand|plain", ok, "celstr: an unescaped character denotes itself", ev.loc(fn))
+            run.shape("C07.L2", "celstr.expand|plain", ok, "celstr: an unescaped character denotes itself", ev.loc(fn))
         else:
             ok = bool(one) and "encode('utf-8')" in ast.unparse(one[0]).replace('"', "'")
-            run.ob("C07.L5", "celbytes.expand|plain", ok, "celbytes: an unescaped character contributes its UTF-8 encoding", ev.loc(fn))
+            run.shape("C07.L5", "celbytes.expand|plain", ok, "celbytes: an unescaped character contributes its UTF-8 encoding", ev.loc(fn))
     # L5: no ord() of token characters ---------------------------------------
     cb = ev.func("celbytes")
     ords = []
@@ -235,8 +252,11 @@ def check(repo: Repo, run: Run) -> None:
     # L7 -----------------------------------------------------------------
     n7 = 0
     for fname in ("celstr", "celbytes"):
-        fn = ev.func(fname)
-        for ok, why, node in delimiter_slices(fn):
+        fn = ev.func_n(fname)
+        found = delimiter_slices(fn)
+        if not found:
+            run.inconclusive("C07.L7", f"{fname}|delims", "no `text[a:b] == <triple quote>` test with fixed-offset slices of the token text was recognised")
+        for ok, why, node in found:
             n7 += 1
             idx = n7
             run.ob("C07.L7", f"{fname}|delims#{idx}", ok, f"{fname}: {why}", ev.loc(node))
@@ -244,10 +264,9 @@ def check(repo: Repo, run: Run) -> None:
         run.ob("C07.L7", f"{fname}|extraction", not bad,
                f"{fname}: " + ("content is extracted by fixed-offset slicing only" if not bad else f"`{bad[0]}` removes characters by value, not by position: content that begins/ends with the same character is damaged"),
                ev.loc(fn))
-    run.floor("C07.L7", n7, 4)
     # L6 -----------------------------------------------------------------
-    ti = literal_table(ev.func("Evaluator.literal"))
-    tt = literal_table(ev.func("Phase1Transpiler.literal"))
+    ti = literal_table(ev.func_n("Evaluator.literal"))
+    tt = literal_table(ev.func_n("Phase1Transpiler.literal"))
     lit_terms = {s for sh in g.shapes("literal") for s in sh}
     want_ctor = {"FLOAT_LIT": "DoubleType", "INT_LIT": "IntType", "UINT_LIT": "UintType", "STRING_LIT": "celstr", "MLSTRING_LIT": "celstr",
                  "BYTES_LIT": "celbytes", "BOOL_LIT": "BoolType", "NULL_LIT": "None"}
@@ -259,9 +278,9 @@ def check(repo: Repo, run: Run) -> None:
             run.ob("C07.L6", f"{label}.literal|{term}", ok, f"{label}.literal builds `{(got or 'nothing')[:60]}` for {term}; needs {w}", str(ev.path))
     for label, tab in (("Evaluator", ti), ("Phase1Transpiler", tt)):
         u = tab.get("UINT_LIT", "")
-        run.ob("C07.L6", f"{label}.literal|UINT suffix", "[:-1]" in u, f"{label}.literal strips the u suffix: `{u[:60]}`", str(ev.path))
+        run.shape("C07.L6", f"{label}.literal|UINT suffix", "[:-1]" in u, f"{label}.literal strips the u suffix: `{u[:60]}`", str(ev.path))
         b = tab.get("BOOL_LIT", "")
-        run.ob("C07.L6", f"{label}.literal|BOOL", "== 'true'" in b.replace('"', "'"), f"{label}.literal: true iff the text is `true`: `{b[:70]}`", str(ev.path))
+        run.shape("C07.L6", f"{label}.literal|BOOL", "== 'true'" in b.replace('"', "'"), f"{label}.literal: true iff the text is `true`: `{b[:70]}`", str(ev.path))
     # L4: numeric spellings pasted into generated Python --------------------------
     for term in ("INT_LIT", "UINT_LIT", "FLOAT_LIT"):
         arm = tt.get(term, "")
